@@ -244,7 +244,8 @@ Inductive label :=
 | QueryK (k : kind)            (* root.VerifyRequests / VerifyResponses called directly *)
 | ResetK (k : kind)            (* root.ResetRequestVerifications / ResetResponseVerifications *)
 | Query                        (* verify.Handler: requests then responses *)
-| Reset.                       (* verify.ResetHandler: requests then responses *)
+| Reset                        (* verify.ResetHandler: requests then responses *)
+| Refused.                     (* a call either handler answers with 405 (wrong method) *)
 
 Record sys := mkSys { tq : ktree; ts : ktree }.
 
@@ -261,6 +262,7 @@ Definition step (vr : variant) (s : sys) (l : label) : sys * option (list failur
   | ResetK k => (set k s (reset (reset_both vr k) (get k s)), None)
   | Query => (s, Some (errs_of (verify Req (tq s)) ++ errs_of (verify Res (ts s))))
   | Reset => (mkSys (reset (reset_both vr Req) (tq s)) (reset (reset_both vr Res) (ts s)), None)
+  | Refused => (s, None)
   end.
 
 (* final state and the answers of the queries, in order *)
@@ -289,6 +291,7 @@ Fixpoint spec_run (tq0 ts0 : ktree) (aq as_ : list msg) (h : list label) : list 
   | ResetK Res :: r => spec_run tq0 ts0 aq [] r
   | Query :: r => (expected Req aq tq0 ++ expected Res as_ ts0) :: spec_run tq0 ts0 aq as_ r
   | Reset :: r => spec_run tq0 ts0 [] [] r
+  | Refused :: r => spec_run tq0 ts0 aq as_ r
   end.
 
 Definition spec_outputs (c : cfg) (h : list label) : list (list failure) :=
@@ -402,6 +405,12 @@ Fixpoint since (k : kind) (acc : list msg) (h : list label) : list msg :=
 (* a history without the traffic addressed to the proxy's own API *)
 Definition not_api_traffic (l : label) : bool :=
   match l with Traffic _ m => negb (mapi m) | _ => true end.
+
+(* a history without the calls the handlers refused *)
+Definition not_refused (l : label) : bool :=
+  match l with Refused => false | _ => true end.
+
+Definition drop_refused (h : list label) : list label := filter not_refused h.
 
 Definition drop_api (h : list label) : list label := filter not_api_traffic h.
 
